@@ -468,6 +468,9 @@ pub(crate) struct KEnv {
     pub l1_shim: u8,
     pub header: KLock<crate::meta::Qcow2Header>,
     pub sl: KSl,
+    /// the device's refcount table behind its lock (flush_refcount)
+    pub fr_reftable: Option<KLock<crate::meta::RefTable>>,
+    pub fr_probe: Cell<u64>,
 }
 
 /// stand-in for the boxed backing device
@@ -512,6 +515,8 @@ impl KEnv {
             header: KLock::new(crate::meta::verif_header::mk_header(16, 4, 0, 1, 1, false)),
             sl: KSl { l2: KProbe::new(KWhich::L2), rb: KProbe::new(KWhich::Rb), evict: None, fail_add: false,
                       fail_flush_rc: false, fail_flush: false, fail_l1: false, l1e: 0 },
+            fr_reftable: None,
+            fr_probe: Cell::new(0),
         }
     }
 
@@ -873,6 +878,23 @@ impl KEnv {
             return Err(KErr);
         }
         Ok(unsafe { core::mem::transmute::<u64, L1Entry>(self.sl.l1e) })
+    }
+    // ---- flush drivers (segment FR): flush_meta_generic as seen by flush_refcount / flush_mapping.
+    // Records which table (host offset), which cache, and what the key function answers at the
+    // probe offset; "done" after `passes_left` more passes.
+    pub fn k_fr_flush_meta_generic<A: Table, F: Fn(u64) -> usize>(&self, rt: &A, which: KWhich, key_fn: F) -> Qcow2Result<bool> {
+        self.rec(Rec { kind: K_FLUSH_MAPPING, entry: rt.get_offset().unwrap_or(u64::MAX), off: key_fn(self.fr_probe.get()) as u64,
+                       len: rt.entries(), buf_start: 0, flags: which as u32 });
+        if self.fail_write.get() {
+            return Err(crate::error::Qcow2Error::from_desc(String::new()));
+        }
+        let left = self.passes_left.get();
+        if left == 0 {
+            Ok(true)
+        } else {
+            self.passes_left.set(left - 1);
+            Ok(false)
+        }
     }
     // ---- L1 header-entry extension
     pub fn k_commit_header<F: FnOnce(&mut crate::meta::Qcow2Header)>(&self, h: &mut RefMut<'_, crate::meta::Qcow2Header>, _rollback: F) -> Qcow2Result<()> {
